@@ -1,5 +1,5 @@
-/- C13 helper lemmas: what `execute` leaves alone (options, history, cursor) and what it never emits
-   (prompts, history stores). -/
+/- C13 helper lemmas: what any stretch of processing — a key, a command, a handler's script, a nested
+   Enter fed by a handler — does to options, history and the prompt count (`Good`). -/
 import TboxModel.C13.ProofsEditor
 namespace Tbox.C13
 
@@ -7,159 +7,384 @@ def isStored : Ev → Bool
   | .stored _ => true
   | _ => false
 
-/-- no prompt and no history store among the events -/
-def Quiet (evs : List Ev) : Prop := ∀ e ∈ evs, isPrompt e = false ∧ isStored e = false
+/-- no prompt, no history store, no Enter among the events -/
+def Neutral (evs : List Ev) : Prop := ∀ e ∈ evs, isPrompt e = false ∧ isStored e = false ∧ isEntered e = false
 
-/-- `execute` and its parts change at most the current input and the path -/
-structure Keep (s : St) (r : ExecRes) : Prop where
-  opts : r.1.opts = s.opts
-  hist : r.1.hist = s.hist
-  cursor : r.1.cursor = s.cursor
-  hidx : r.1.hidx = s.hidx
-  quiet : Quiet r.2.1
-
-theorem Quiet.nil : Quiet [] := by intro e he; simp at he
-theorem Quiet.append {a b : List Ev} (ha : Quiet a) (hb : Quiet b) : Quiet (a ++ b) := by
+theorem Neutral.nil : Neutral [] := by intro e he; simp at he
+theorem Neutral.append {a b : List Ev} (ha : Neutral a) (hb : Neutral b) : Neutral (a ++ b) := by
   intro e he; rcases List.mem_append.mp he with h | h
   · exact ha e h
   · exact hb e h
-theorem Quiet.cons {e : Ev} {a : List Ev} (he : isPrompt e = false ∧ isStored e = false) (ha : Quiet a) : Quiet (e :: a) := by
+theorem Neutral.cons {e : Ev} {a : List Ev} (he : isPrompt e = false ∧ isStored e = false ∧ isEntered e = false)
+    (ha : Neutral a) : Neutral (e :: a) := by
   intro x hx; rcases List.mem_cons.mp hx with h | h
   · subst h; exact he
   · exact ha x h
 
-theorem userCmd_quiet (ns : Nodes) (s : St) (args : List Str) (cmd : Str) : Quiet (userCmd ns s args cmd).2 := by
-  unfold userCmd; repeat' split
-  all_goals simp [Quiet, isPrompt, isStored]
+theorem countPrompts_append (a b : List Ev) : countPrompts (a ++ b) = countPrompts a + countPrompts b := by
+  simp [countPrompts]
+theorem countEntered_append (a b : List Ev) : countEntered (a ++ b) = countEntered a + countEntered b := by
+  simp [countEntered]
+theorem storedLines_append (a b : List Ev) : storedLines (a ++ b) = storedLines a ++ storedLines b := by
+  simp [storedLines]
 
-def Sel.quiet : Sel → Prop
-  | .err evs => Quiet evs
+theorem countPrompts_neutral {evs : List Ev} (h : Neutral evs) : countPrompts evs = 0 := by
+  unfold countPrompts
+  rw [List.length_eq_zero_iff, List.filter_eq_nil_iff]
+  intro e he; simp [(h e he).1]
+theorem countEntered_neutral {evs : List Ev} (h : Neutral evs) : countEntered evs = 0 := by
+  unfold countEntered
+  rw [List.length_eq_zero_iff, List.filter_eq_nil_iff]
+  intro e he; simp [(h e he).2.2]
+theorem storedLines_neutral {evs : List Ev} (h : Neutral evs) : storedLines evs = [] := by
+  unfold storedLines
+  rw [List.filterMap_eq_nil_iff]
+  intro e he
+  have := (h e he).2.1
+  cases e <;> simp_all [isStored]
+
+/-! ### `cap` -/
+
+theorem cap_length (l : List Str) : (cap l).length ≤ histMax := by
+  unfold cap; simp; omega
+theorem cap_of_le (l : List Str) (h : l.length ≤ histMax) : cap l = l := by
+  unfold cap; rw [show l.length - histMax = 0 by omega]; rfl
+theorem cap_append_cap (a b : List Str) : cap (cap a ++ b) = cap (a ++ b) := by
+  unfold cap
+  by_cases h : a.length ≤ histMax
+  · rw [show a.length - histMax = 0 by omega]; rfl
+  · have hk : a.length - histMax ≤ a.length := by omega
+    simp only [List.length_append, List.length_drop]
+    rw [← List.drop_append_of_le_length hk, List.drop_drop]
+    congr 1; omega
+theorem cap_step (h : List Str) (l : Str) (hh : h.length ≤ histMax) :
+    (if (h ++ [l]).length > histMax then (h ++ [l]).drop 1 else h ++ [l]) = cap (h ++ [l]) := by
+  unfold cap
+  simp only [List.length_append, List.length_cons, List.length_nil]
+  split
+  · congr 1; omega
+  · rw [show h.length + (0 + 1) - histMax = 0 by omega]; rfl
+
+/-! ### `Good` -/
+
+/-- a stretch of processing from session state `s`: options untouched; the history grows by exactly
+the lines stored, in order, capped at 20; every Enter handled is answered by exactly one prompt -/
+structure Good (s : St) (r : St × List Ev) : Prop where
+  opts : r.1.opts = s.opts
+  hist : s.hist.length ≤ histMax → r.1.hist = cap (s.hist ++ storedLines r.2) ∧ r.1.hist.length ≤ histMax
+  prompts : countPrompts r.2 = if s.quiet then 0 else countEntered r.2
+
+def GoodFeed (feed : Feed) : Prop := ∀ f, feed = some f → ∀ s bs, Good s (f s bs)
+
+theorem quiet_of_opts {a b : St} (h : a.opts = b.opts) : a.quiet = b.quiet := by unfold St.quiet; rw [h]
+
+theorem good_neutral {s s' : St} {evs : List Ev} (ho : s'.opts = s.opts) (hh : s'.hist = s.hist) (hn : Neutral evs) :
+    Good s (s', evs) :=
+  ⟨ho, fun hle => by simp [hh, storedLines_neutral hn, cap_of_le _ hle, hle],
+   by simp [countPrompts_neutral hn, countEntered_neutral hn]⟩
+
+theorem Good.trans {s : St} {r1 r2 : St × List Ev} (h1 : Good s r1) (h2 : Good r1.1 r2) :
+    Good s (r2.1, r1.2 ++ r2.2) := by
+  refine ⟨h2.opts.trans h1.opts, fun hle => ?_, ?_⟩
+  · obtain ⟨e1, l1⟩ := h1.hist hle
+    obtain ⟨e2, l2⟩ := h2.hist l1
+    refine ⟨?_, l2⟩
+    rw [e2, e1, cap_append_cap, storedLines_append, List.append_assoc]
+  · rw [countPrompts_append, countEntered_append, h1.prompts, h2.prompts, quiet_of_opts h1.opts]
+    split <;> simp
+
+/-- neutral events before / after do not matter -/
+theorem Good.pre {s s' : St} {evs pre : List Ev} (h : Good s (s', evs)) (hp : Neutral pre) : Good s (s', pre ++ evs) := by
+  have := Good.trans (good_neutral (s := s) (s' := s) rfl rfl hp) (r2 := (s', evs)) h
+  simpa using this
+theorem Good.post {s s' : St} {evs post : List Ev} (h : Good s (s', evs)) (hp : Neutral post) : Good s (s', evs ++ post) := by
+  have := Good.trans h (r2 := (s', post)) (good_neutral rfl rfl hp)
+  simpa using this
+
+theorem neutral_single (e : Ev) (h : isPrompt e = false ∧ isStored e = false ∧ isEntered e = false) : Neutral [e] :=
+  Neutral.cons h Neutral.nil
+
+/-! ### scripts and commands -/
+
+theorem runScript_good (feed : Feed) (hf : GoodFeed feed) (acts : List Act) : ∀ s, Good s (runScript feed s acts) := by
+  cases feed with
+  | none =>
+    induction acts with
+    | nil => intro s; exact good_neutral rfl rfl Neutral.nil
+    | cons a r ih =>
+      intro s
+      cases a with
+      | send bs =>
+        simp only [runScript]
+        exact Good.pre (pre := [.tx .out bs]) (ih s) (neutral_single _ (by simp [isPrompt, isStored, isEntered]))
+      | feed bs => simp only [runScript]; exact ih s
+      | endS =>
+        simp only [runScript]
+        exact Good.pre (pre := [.endSess]) (ih s) (neutral_single _ (by simp [isPrompt, isStored, isEntered]))
+  | some f =>
+    induction acts with
+    | nil => intro s; exact good_neutral rfl rfl Neutral.nil
+    | cons a r ih =>
+      intro s
+      cases a with
+      | send bs =>
+        simp only [runScript]
+        exact Good.pre (pre := [.tx .out bs]) (ih s) (neutral_single _ (by simp [isPrompt, isStored, isEntered]))
+      | feed bs =>
+        simp only [runScript]
+        have h1 := hf f rfl s bs
+        have h2 := Good.trans h1 (ih (f s bs).1)
+        exact Good.pre (pre := [.tag "nested-feed"]) h2 (neutral_single _ (by simp [isPrompt, isStored, isEntered]))
+      | endS =>
+        simp only [runScript]
+        exact Good.pre (pre := [.endSess]) (ih s) (neutral_single _ (by simp [isPrompt, isStored, isEntered]))
+
+theorem userCmd_good (ns : Nodes) (feed : Feed) (hf : GoodFeed feed) (s : St) (args : List Str) (cmd : Str) :
+    Good s (userCmd ns feed s args cmd) := by
+  unfold userCmd
+  cases findNode ns cmd s.path with
+  | none => exact good_neutral rfl rfl (neutral_single _ (by simp [isPrompt, isStored, isEntered]))
+  | some np =>
+    simp only
+    cases nodeAt ns (topOf np) with
+    | none => exact good_neutral rfl rfl (neutral_single _ (by simp [isPrompt, isStored, isEntered]))
+    | some node =>
+      cases node with
+      | dir ch => exact good_neutral rfl rfl Neutral.nil
+      | func script =>
+        simp only
+        have hr : Good s (runHandler feed s script) := by
+          unfold runHandler; split
+          · exact runScript_good feed hf script s
+          · exact good_neutral rfl rfl Neutral.nil
+        have h1 := Good.post (post := [.tx .out (60 :: decBytes (topOf np) ++ 62 :: Msg.crlf)]) hr
+          (neutral_single _ (by simp [isPrompt, isStored, isEntered]))
+        exact Good.pre (pre := [.probe (topOf np) args]) h1 (neutral_single _ (by simp [isPrompt, isStored, isEntered]))
+
+/-- the `ExecRes` form -/
+def GoodX (s : St) (r : ExecRes) : Prop := Good s (r.1, r.2.1)
+
+def Sel.neutral : Sel → Prop
+  | .err evs => Neutral evs
   | .run _ _ _ => True
 
-theorem selectEntry_quiet (cfg : Cfg) (hist : List Str) (a : Str) : (selectEntry cfg hist a).quiet := by
+theorem selectEntry_neutral (cfg : Cfg) (hist : List Str) (a : Str) : (selectEntry cfg hist a).neutral := by
   unfold selectEntry
   simp only []
   by_cases h1 : List.drop 1 a = [33]
   · simp only [h1, if_true]
     cases hist.getLast? with
-    | none => by_cases hb : cfg.bangGuard = true <;> simp [hb, Sel.quiet, Quiet, isPrompt, isStored]
-    | some l => simp [Sel.quiet]
+    | none => by_cases hb : cfg.bangGuard = true <;> simp [hb, Sel.neutral, Neutral, isPrompt, isStored, isEntered]
+    | some l => simp [Sel.neutral]
   · simp only [h1, if_false]
     cases stoi (List.drop 1 a) with
-    | invalid => simp [Sel.quiet, Quiet, isPrompt, isStored]
-    | range => by_cases hb : cfg.catchRange = true <;> simp [hb, Sel.quiet, Quiet, isPrompt, isStored]
+    | invalid => simp [Sel.neutral, Neutral, isPrompt, isStored, isEntered]
+    | range => by_cases hb : cfg.catchRange = true <;> simp [hb, Sel.neutral, Neutral, isPrompt, isStored, isEntered]
     | val i =>
       simp only []
       by_cases hi : i ≥ 0
       · simp only [hi, if_true]
         by_cases h2 : i.toNat < hist.length
         · simp only [h2, if_true]
-          cases hist[i.toNat]? <;> simp [Sel.quiet, Quiet, isPrompt, isStored]
-        · simp [h2, Sel.quiet, Quiet, isPrompt, isStored]
+          cases hist[i.toNat]? <;> simp [Sel.neutral, Neutral, isPrompt, isStored, isEntered]
+        · simp [h2, Sel.neutral, Neutral, isPrompt, isStored, isEntered]
       · simp only [hi, if_false]
         by_cases h3 : (!cfg.wideNeg && decide (i = intMin)) = true
-        · simp [h3, Sel.quiet, Quiet, isPrompt, isStored]
-        · simp only [h3, if_false]
+        · simp [h3, Sel.neutral, Neutral, isPrompt, isStored, isEntered]
+        · simp only [h3]
           by_cases h4 : hist.length ≥ (-i).toNat
           · simp only [h4, if_true]
-            cases hist[hist.length - (-i).toNat]? <;> simp [Sel.quiet, Quiet, isPrompt, isStored]
-          · simp [h4, Sel.quiet, Quiet, isPrompt, isStored]
+            cases hist[hist.length - (-i).toNat]? <;> simp [Sel.neutral, Neutral, isPrompt, isStored, isEntered]
+          · simp [h4, Sel.neutral, Neutral, isPrompt, isStored, isEntered]
 
-theorem selectEntry_err_quiet (cfg : Cfg) (hist : List Str) (a : Str) (evs : List Ev)
-    (h : selectEntry cfg hist a = .err evs) : Quiet evs := by
-  have := selectEntry_quiet cfg hist a
-  rw [h] at this; exact this
-
-theorem runHistory_keep (cfg : Cfg) (inner : St → ExecRes) (hin : ∀ s, Keep s (inner s)) (s : St) (a : Str) :
-    Keep s (runHistory cfg inner s a) := by
-  unfold runHistory
+theorem runHistory_good (cfg : Cfg) (inner : St → ExecRes) (hin : ∀ s, GoodX s (inner s)) (rerun : Bool) (s : St) (a : Str) :
+    GoodX s (runHistory cfg inner rerun s a) := by
+  unfold runHistory GoodX
   split
-  · next evs h => exact ⟨rfl, rfl, rfl, rfl, selectEntry_err_quiet _ _ _ _ h⟩
-  · next l echo tag h =>
-    have hk := hin { s with line := l }
-    refine ⟨hk.opts, hk.hist, hk.cursor, hk.hidx, ?_⟩
-    apply Quiet.cons (by simp [isPrompt, isStored])
-    apply Quiet.append _ hk.quiet
-    split <;> simp [Quiet, isPrompt, isStored]
+  · exact good_neutral rfl rfl (by simp [Neutral, isPrompt, isStored, isEntered])
+  · have hsel := selectEntry_neutral cfg s.hist a
+    split
+    · next evs h => rw [h] at hsel; exact good_neutral rfl rfl hsel
+    · next l echo tag h =>
+      simp only
+      have hk := hin { s with line := l, cursor := if cfg.cursorReset = true then l.length else s.cursor }
+      have hk' : Good s ((inner { s with line := l, cursor := if cfg.cursorReset = true then l.length else s.cursor }).1,
+          (inner { s with line := l, cursor := if cfg.cursorReset = true then l.length else s.cursor }).2.1) :=
+        ⟨hk.opts, hk.hist, hk.prompts⟩
+      have : Neutral (.tag tag :: (if echo = true then [Ev.tx .out (l ++ Msg.crlf)] else [])) := by
+        apply Neutral.cons (by simp [isPrompt, isStored, isEntered])
+        split <;> simp [Neutral, isPrompt, isStored, isEntered]
+      have := Good.pre hk' this
+      simpa using this
 
-theorem executeCmd_keep (cfg : Cfg) (ns : Nodes) (inner : St → ExecRes) (hin : ∀ s, Keep s (inner s)) (s : St) (c : Str) :
-    Keep s (executeCmd cfg ns inner s c) := by
+theorem executeCmd_good (cfg : Cfg) (ns : Nodes) (feed : Feed) (hf : GoodFeed feed) (inner : St → ExecRes)
+    (hin : ∀ s, GoodX s (inner s)) (rerun : Bool) (s : St) (c : Str) :
+    GoodX s (executeCmd cfg ns feed inner rerun s c) := by
   unfold executeCmd
   repeat' split
   all_goals first
-    | exact runHistory_keep cfg inner hin s _
-    | exact ⟨rfl, rfl, rfl, rfl, Quiet.cons (by simp [isPrompt, isStored]) (userCmd_quiet _ _ _ _)⟩
-    | exact ⟨rfl, rfl, rfl, rfl, by simp [Quiet, isPrompt, isStored]⟩
-    | (refine ⟨rfl, rfl, rfl, rfl, ?_⟩; intro e he; simp at he; rcases he with rfl | rfl | rfl <;> simp [isPrompt, isStored])
-    | (refine ⟨rfl, rfl, rfl, rfl, ?_⟩; intro e he; simp at he; rcases he with rfl | rfl <;> simp [isPrompt, isStored])
-    | (simp only []; split <;> exact ⟨rfl, rfl, rfl, rfl, by simp [Quiet, isPrompt, isStored]⟩)
+    | exact runHistory_good cfg inner hin rerun s _
+    | (exact Good.pre (pre := [.tag "cmd-user"]) (userCmd_good ns feed hf s _ _) (neutral_single _ (by simp [isPrompt, isStored, isEntered])))
+    | (exact good_neutral rfl rfl (by simp [Neutral, isPrompt, isStored, isEntered]))
+    | (refine good_neutral rfl rfl ?_; intro e he; simp at he; rcases he with rfl | rfl | rfl <;> simp [isPrompt, isStored, isEntered])
+    | (refine good_neutral rfl rfl ?_; intro e he; simp at he; rcases he with rfl | rfl <;> simp [isPrompt, isStored, isEntered])
+    | (simp only []; split <;> exact good_neutral rfl rfl (by simp [Neutral, isPrompt, isStored, isEntered]))
 
-theorem runSegs_keep (f : St → Str → ExecRes) (hf : ∀ s c, Keep s (f s c)) (s : St) (cs : List Str) :
-    Keep s (runSegs f s cs) := by
+theorem runSegs_good (f : St → Str → ExecRes) (hf : ∀ s c, GoodX s (f s c)) (s : St) (cs : List Str) :
+    GoodX s (runSegs f s cs) := by
   induction cs generalizing s with
-  | nil => exact ⟨rfl, rfl, rfl, rfl, Quiet.nil⟩
+  | nil => exact good_neutral rfl rfl Neutral.nil
   | cons c cs ih =>
     have h1 := hf s c
     unfold runSegs
     simp only
     split
-    · have h2 := ih (f s c).1
-      exact ⟨h2.opts.trans h1.opts, h2.hist.trans h1.hist, h2.cursor.trans h1.cursor, h2.hidx.trans h1.hidx,
-             Quiet.append h1.quiet h2.quiet⟩
-    · exact ⟨h1.opts, h1.hist, h1.cursor, h1.hidx, h1.quiet⟩
+    · exact Good.trans h1 (ih (f s c).1)
+    · exact h1
 
-theorem execute_keep (cfg : Cfg) (ns : Nodes) (fuel : Nat) (s : St) : Keep s (execute cfg ns fuel s) := by
-  induction fuel generalizing s with
-  | zero => exact ⟨rfl, rfl, rfl, rfl, by simp [execute, Quiet, isPrompt, isStored]⟩
+theorem execute_good (cfg : Cfg) (ns : Nodes) (feed : Feed) (hf : GoodFeed feed) (fuel : Nat) :
+    ∀ (rerun : Bool) (s : St), GoodX s (execute cfg ns feed fuel rerun s) := by
+  induction fuel with
+  | zero => intro rerun s; exact good_neutral rfl rfl (by simp [execute, Neutral, isPrompt, isStored, isEntered])
   | succ n ih =>
-    have h := runSegs_keep (executeCmd cfg ns (execute cfg ns n)) (fun s c => executeCmd_keep cfg ns _ ih s c) s (splitOn 59 s.line)
-    unfold execute
-    exact ⟨h.opts, h.hist, h.cursor, h.hidx, Quiet.cons (by simp [isPrompt, isStored]) h.quiet⟩
+    intro rerun s
+    have h := runSegs_good (executeCmd cfg ns feed (execute cfg ns feed n true) rerun)
+      (fun s c => executeCmd_good cfg ns feed hf _ (ih true) rerun s c) s (splitOn 59 s.line)
+    unfold execute GoodX
+    exact Good.pre (pre := [.exec s.line]) h (neutral_single _ (by simp [isPrompt, isStored, isEntered]))
 
+/-! ### keys -/
 
-/-- an editing key (anything but Enter) leaves history and options alone and sends no prompt -/
-structure KeyKeep (s : St) (r : St × List Ev) : Prop where
-  opts : r.1.opts = s.opts
-  hist : r.1.hist = s.hist
-  quiet : Quiet r.2
-
-theorem onKey_keep (cfg : Cfg) (ns : Nodes) (s : St) (k : Key) (hk : k ≠ .enter) : KeyKeep s (onKey cfg ns s k) := by
+theorem onKey_nonEnter_good (cfg : Cfg) (ns : Nodes) (feed : Feed) (s : St) (k : Key) (hk : k ≠ .enter) :
+    (onKey cfg ns feed s k).1.opts = s.opts ∧ (onKey cfg ns feed s k).1.hist = s.hist ∧ Neutral (onKey cfg ns feed s k).2 := by
   cases k with
   | enter => exact absurd rfl hk
-  | tab => exact ⟨rfl, rfl, Quiet.nil⟩
-  | char c => show KeyKeep s (onChar s c); unfold onChar; repeat' split
-              all_goals exact ⟨rfl, rfl, by simp [Quiet, isPrompt, isStored]⟩
-  | backspace => show KeyKeep s (onBackspace s); unfold onBackspace; repeat' split
-                 all_goals exact ⟨rfl, rfl, by simp [Quiet, isPrompt, isStored]⟩
-  | delete => show KeyKeep s (onDelete s); unfold onDelete; repeat' split
-              all_goals exact ⟨rfl, rfl, by simp [Quiet, isPrompt, isStored]⟩
-  | up => show KeyKeep s (onUp s); unfold onUp; repeat' (first | split | dsimp only)
-          all_goals exact ⟨rfl, rfl, by simp [Quiet, isPrompt, isStored]⟩
-  | down => show KeyKeep s (onDown s); unfold onDown; repeat' (first | split | dsimp only)
-            all_goals exact ⟨rfl, rfl, by simp [Quiet, isPrompt, isStored]⟩
-  | left => show KeyKeep s (onLeft s); unfold onLeft; repeat' split
-            all_goals exact ⟨rfl, rfl, by simp [Quiet, isPrompt, isStored]⟩
-  | right => show KeyKeep s (onRight s); unfold onRight; repeat' split
-             all_goals exact ⟨rfl, rfl, by simp [Quiet, isPrompt, isStored]⟩
-  | home => show KeyKeep s (onHome s); unfold onHome; exact ⟨rfl, rfl, by simp [Quiet, isPrompt, isStored]⟩
-  | endKey => show KeyKeep s (onEnd s); unfold onEnd; repeat' split
-              all_goals exact ⟨rfl, rfl, by simp [Quiet, isPrompt, isStored]⟩
+  | tab => exact ⟨rfl, rfl, Neutral.nil⟩
+  | char c => show (onChar s c).1.opts = _ ∧ (onChar s c).1.hist = _ ∧ Neutral (onChar s c).2
+              unfold onChar; repeat' split
+              all_goals exact ⟨rfl, rfl, by simp [Neutral, isPrompt, isStored, isEntered]⟩
+  | backspace => show (onBackspace s).1.opts = _ ∧ (onBackspace s).1.hist = _ ∧ Neutral (onBackspace s).2
+                 unfold onBackspace; repeat' split
+                 all_goals exact ⟨rfl, rfl, by simp [Neutral, isPrompt, isStored, isEntered]⟩
+  | delete => show (onDelete s).1.opts = _ ∧ (onDelete s).1.hist = _ ∧ Neutral (onDelete s).2
+              unfold onDelete; repeat' split
+              all_goals exact ⟨rfl, rfl, by simp [Neutral, isPrompt, isStored, isEntered]⟩
+  | up => show (onUp s).1.opts = _ ∧ (onUp s).1.hist = _ ∧ Neutral (onUp s).2
+          unfold onUp; repeat' (first | split | dsimp only)
+          all_goals exact ⟨rfl, rfl, by simp [Neutral, isPrompt, isStored, isEntered]⟩
+  | down => show (onDown s).1.opts = _ ∧ (onDown s).1.hist = _ ∧ Neutral (onDown s).2
+            unfold onDown; repeat' (first | split | dsimp only)
+            all_goals exact ⟨rfl, rfl, by simp [Neutral, isPrompt, isStored, isEntered]⟩
+  | left => show (onLeft s).1.opts = _ ∧ (onLeft s).1.hist = _ ∧ Neutral (onLeft s).2
+            unfold onLeft; repeat' split
+            all_goals exact ⟨rfl, rfl, by simp [Neutral, isPrompt, isStored, isEntered]⟩
+  | right => show (onRight s).1.opts = _ ∧ (onRight s).1.hist = _ ∧ Neutral (onRight s).2
+             unfold onRight; repeat' split
+             all_goals exact ⟨rfl, rfl, by simp [Neutral, isPrompt, isStored, isEntered]⟩
+  | home => show (onHome s).1.opts = _ ∧ (onHome s).1.hist = _ ∧ Neutral (onHome s).2
+            unfold onHome; exact ⟨rfl, rfl, by simp [Neutral, isPrompt, isStored, isEntered]⟩
+  | endKey => show (onEnd s).1.opts = _ ∧ (onEnd s).1.hist = _ ∧ Neutral (onEnd s).2
+              unfold onEnd; repeat' split
+              all_goals exact ⟨rfl, rfl, by simp [Neutral, isPrompt, isStored, isEntered]⟩
 
-theorem countPrompts_quiet {evs : List Ev} (h : Quiet evs) : countPrompts evs = 0 := by
-  unfold countPrompts
-  rw [List.length_eq_zero_iff, List.filter_eq_nil_iff]
-  intro e he; simp [(h e he).1]
+theorem countPrompts_cons (e : Ev) (l : List Ev) : countPrompts (e :: l) = (if isPrompt e then 1 else 0) + countPrompts l := by
+  unfold countPrompts; rw [List.filter_cons]; split <;> simp <;> omega
+theorem countEntered_cons (e : Ev) (l : List Ev) : countEntered (e :: l) = (if isEntered e then 1 else 0) + countEntered l := by
+  unfold countEntered; rw [List.filter_cons]; split <;> simp <;> omega
 
-theorem storedLines_quiet {evs : List Ev} (h : Quiet evs) : storedLines evs = [] := by
-  unfold storedLines
-  rw [List.filterMap_eq_nil_iff]
-  intro e he
-  have := (h e he).2
-  cases e <;> simp_all [isStored]
+/-- one Enter: the Enters handled inside it (fed by handlers) each got their prompt, and so does this one;
+its own line, if stored, comes after the lines stored inside -/
+theorem onEnter_good (cfg : Cfg) (ns : Nodes) (feed : Feed) (hf : GoodFeed feed) (s : St) :
+    Good s (onEnter cfg ns feed s) := by
+  have hx := execute_good cfg ns feed hf execFuel false s
+  unfold onEnter
+  generalize execute cfg ns feed execFuel false s = r at hx
+  obtain ⟨s1, evs, ok⟩ := r
+  have hx : Good s (s1, evs) := hx
+  have ho : s1.opts = s.opts := hx.opts
+  have hq : s1.quiet = s.quiet := quiet_of_opts ho
+  simp only
+  have sl_pre : storedLines (if s.echo = true then [Ev.entered, Ev.tx .echo Msg.crlf] else [Ev.entered]) = [] := by
+    split <;> simp [storedLines]
+  have sl_pr : storedLines (if s.quiet = true then [] else [Ev.tx .prompt Msg.prompt]) = [] := by
+    split <;> simp [storedLines]
+  have sl_ns : storedLines [Ev.tag "nostore"] = [] := by simp [storedLines]
+  have sl_st : ∀ (l : Str) (t : String), storedLines [Ev.stored l, Ev.tag t] = [l] := by intro l t; simp [storedLines]
+  have cp_pre : countPrompts (if s.echo = true then [Ev.entered, Ev.tx .echo Msg.crlf] else [Ev.entered]) = 0 := by
+    split <;> rfl
+  have ce_pre : countEntered (if s.echo = true then [Ev.entered, Ev.tx .echo Msg.crlf] else [Ev.entered]) = 1 := by
+    split <;> rfl
+  have cp_pr : countPrompts (if s.quiet = true then [] else [Ev.tx .prompt Msg.prompt]) = if s.quiet then 0 else 1 := by
+    split <;> rfl
+  have ce_pr : countEntered (if s.quiet = true then [] else [Ev.tx .prompt Msg.prompt]) = 0 := by
+    split <;> rfl
+  have cp_ns : countPrompts [Ev.tag "nostore"] = 0 := by simp [countPrompts, isPrompt]
+  have ce_ns : countEntered [Ev.tag "nostore"] = 0 := by simp [countEntered, isEntered]
+  have cp_st : ∀ (l : Str) (t : String), countPrompts [Ev.stored l, Ev.tag t] = 0 := by intro l t; simp [countPrompts, isPrompt]
+  have ce_st : ∀ (l : Str) (t : String), countEntered [Ev.stored l, Ev.tag t] = 0 := by intro l t; simp [countEntered, isEntered]
+  refine ⟨?_, fun hle => ?_, ?_⟩
+  · cases ok
+    · exact ho
+    · first | exact ho | (simp only [if_true]; split <;> exact ho)
+  · obtain ⟨e1, l1⟩ := hx.hist hle
+    have e1 : s1.hist = cap (s.hist ++ storedLines evs) := e1
+    have l1 : s1.hist.length ≤ histMax := l1
+    cases ok with
+    | false =>
+      simp only [Bool.false_eq_true, if_false, storedLines_append, sl_pre, hq, sl_pr, sl_ns, List.nil_append, List.append_nil]
+      exact ⟨e1, l1⟩
+    | true =>
+      have hstep := cap_step s1.hist s1.line l1
+      simp only [if_true]
+      by_cases hl : (s1.hist ++ [s1.line]).length > histMax
+      · simp only [hl, if_true] at hstep ⊢
+        simp only [storedLines_append, sl_pre, hq, sl_pr, sl_st, List.nil_append, List.append_nil]
+        rw [hstep, e1, cap_append_cap, List.append_assoc]
+        exact ⟨rfl, cap_length _⟩
+      · simp only [hl, if_false] at hstep ⊢
+        simp only [storedLines_append, sl_pre, hq, sl_pr, sl_st, List.nil_append, List.append_nil]
+        rw [hstep, e1, cap_append_cap, List.append_assoc]
+        exact ⟨rfl, cap_length _⟩
+  · have hp : countPrompts evs = if s.quiet then 0 else countEntered evs := hx.prompts
+    cases ok with
+    | false =>
+      simp only [Bool.false_eq_true, if_false, countPrompts_append, countEntered_append, hq, cp_pre, ce_pre, cp_pr, ce_pr, cp_ns, ce_ns, hp]
+      cases s.quiet <;> simp <;> omega
+    | true =>
+      simp only [if_true]
+      by_cases hl : (s1.hist ++ [s1.line]).length > histMax
+      · simp only [hl, if_true, countPrompts_append, countEntered_append, hq, cp_pre, ce_pre, cp_pr, ce_pr, cp_st, ce_st, hp]
+        cases s.quiet <;> simp <;> omega
+      · simp only [hl, if_false, countPrompts_append, countEntered_append, hq, cp_pre, ce_pre, cp_pr, ce_pr, cp_st, ce_st, hp]
+        cases s.quiet <;> simp <;> omega
 
-theorem countPrompts_append (a b : List Ev) : countPrompts (a ++ b) = countPrompts a + countPrompts b := by
-  simp [countPrompts]
-theorem storedLines_append (a b : List Ev) : storedLines (a ++ b) = storedLines a ++ storedLines b := by
-  simp [storedLines]
+theorem onKey_good (cfg : Cfg) (ns : Nodes) (feed : Feed) (hf : GoodFeed feed) (s : St) (k : Key) :
+    Good s (onKey cfg ns feed s k) := by
+  by_cases hk : k = .enter
+  · subst hk; exact onEnter_good cfg ns feed hf s
+  · have := onKey_nonEnter_good cfg ns feed s k hk
+    exact good_neutral this.1 this.2.1 this.2.2
+
+theorem runKeys_good (cfg : Cfg) (ns : Nodes) (feed : Feed) (hf : GoodFeed feed) (ks : List Key) :
+    ∀ s, Good s (runKeys cfg ns feed s ks) := by
+  induction ks with
+  | nil => intro s; exact good_neutral rfl rfl Neutral.nil
+  | cons k ks ih =>
+    intro s
+    exact Good.trans (onKey_good cfg ns feed hf s k) (ih _)
+
+theorem feedAt_good (cfg : Cfg) (ns : Nodes) (d : Nat) : GoodFeed (feedAt cfg ns d) := by
+  induction d with
+  | zero => intro f hf; simp [feedAt] at hf
+  | succ n ih =>
+    intro f hf s bs
+    simp only [feedAt, Option.some.injEq] at hf
+    subst hf
+    cases n with
+    | zero => exact runKeys_good cfg ns none (by intro f hf; simp at hf) _ s
+    | succ m => exact runKeys_good cfg ns (some (recvStringD cfg ns m)) ih _ s
+
+theorem recvStringD_good (cfg : Cfg) (ns : Nodes) (d : Nat) (s : St) (bs : Str) : Good s (recvStringD cfg ns d s bs) :=
+  feedAt_good cfg ns (d + 1) _ rfl s bs
 
 end Tbox.C13
